@@ -1041,8 +1041,23 @@ static int c16_cmd (char *line)
   if (!strcmp (tok[0], "so") && n == 2)
     {
       ensure_obj ();
-      vh_out ("so %d", call_so (atoi (tok[1])));
-      out_file ();
+      {
+        size_t bn = 0, an = 0;
+        char *before = read_file (SAVE_FILE, &bn);
+        int r = call_so (atoi (tok[1]));
+        vh_out ("so %d", r);
+        if (r < 0)
+          {
+            /* the save ended with an LPC error: the save file must be what it was */
+            char *after = read_file (SAVE_FILE, &an);
+            int same = (!before && !after) || (before && after && bn == an && !memcmp (before, after, bn));
+            vh_out (same ? "file unchanged" : "file changed");
+            free (after);
+          }
+        else
+          out_file ();
+        free (before);
+      }
       {
         struct stat st;
         if (!strcmp (c16_savename, SAVE_LPC) && stat (SAVE_TMP, &st) == 0)
